@@ -502,6 +502,9 @@ func (e *codecEnv) runMapCodecProgram(rng *rand.Rand, T uint32, mode int, nOps i
 		e.st.HarnessErr = "NewMap: " + err.Error()
 		return nil
 	}
+	// one program in three has oversized keys (stored as references) and then mostly small values,
+	// so that some data slabs hold references ONLY through their keys (has-pointers flag, C07)
+	oversizedKeys := rng.Intn(3) == 0
 	nKeys := 20 + rng.Intn(200)
 	if mode == 7 {
 		nKeys = 150 + rng.Intn(100)
@@ -517,6 +520,10 @@ func (e *codecEnv) runMapCodecProgram(rng *rand.Rand, T uint32, mode int, nOps i
 			size = maxKey - uint32(rng.Intn(3))
 		case 1:
 			size = uint32(24 + rng.Intn(4)) // around the one-byte / two-byte head boundary and the first gap
+		case 2:
+			if oversizedKeys {
+				size = maxKey + 1 + uint32(rng.Intn(30)) // too large to inline: the KEY becomes a slab reference
+			}
 		}
 		pay := uint64(i + 1)
 		if rng.Intn(8) == 0 {
@@ -535,7 +542,11 @@ func (e *codecEnv) runMapCodecProgram(rng *rand.Rand, T uint32, mode int, nOps i
 	var pay uint64
 	value := func() hx.TV {
 		var size uint32
-		switch r := rng.Intn(100); {
+		r := rng.Intn(100)
+		if oversizedKeys && r >= 35 && rng.Intn(4) != 0 {
+			r = rng.Intn(35) // mostly small values
+		}
+		switch {
 		case r < 35:
 			size = uint32(1 + rng.Intn(12))
 		case r < 50:
